@@ -255,3 +255,184 @@ func sameMapValue(a, b ssa.Value) bool {
 	}
 	return false
 }
+
+// ---------- ACYC-1 ----------
+
+func init() {
+	register(&Rule{
+		ID: "ACYC-1",
+		Doc: "the acyclicity test is complete: the boolean test whose negative verdict lets the cycle-breaking phase return early (resolved by shape from Process of phase 1) reports \"no cycle\" only after a complete scan (index 0..len-1, no early exit other than reporting a cycle) of the graph's node list, " +
+			"starting its search from every node that the searches so far have not visited - the call of the recursive search on the scanned node depends on nothing but membership tests of that node. " +
+			"A test that starts from source nodes only calls a ring acyclic; the breakers are skipped and every later phase recurses or loops on the cycle",
+		Floor: 1,
+		Ctl:   []string{"internal__phase1__acyc1.go.txt"},
+		Run:   runAcyc1,
+	})
+}
+
+// anchorAcyclicityTest: the bool-returning callee of phase 1's Process whose result decides an early return.
+func (m *Model) anchorAcyclicityTest() *ssa.Function {
+	process := m.SSAFunc("internal/phase1", "(Alg).Process")
+	if process == nil {
+		return nil
+	}
+	for _, b := range process.Blocks {
+		iff, ok := b.Instrs[len(b.Instrs)-1].(*ssa.If)
+		if !ok {
+			continue
+		}
+		cond := iff.Cond
+		if u, ok := cond.(*ssa.UnOp); ok && u.Op == token.NOT {
+			cond = u.X
+		}
+		call, ok := cond.(*ssa.Call)
+		if !ok || call.Call.StaticCallee() == nil || pkgPathOf(call.Call.StaticCallee()) != pkgPathOf(process) {
+			continue
+		}
+		for _, s := range b.Succs {
+			if len(s.Instrs) == 1 {
+				if _, isRet := s.Instrs[0].(*ssa.Return); isRet {
+					return call.Call.StaticCallee()
+				}
+			}
+		}
+	}
+	return nil
+}
+
+func runAcyc1(m *Model, r *RuleResult) {
+	var tests []*ssa.Function
+	if t := m.anchorAcyclicityTest(); t != nil {
+		tests = append(tests, t)
+	}
+	for _, f := range m.Src {
+		if m.FuncIsPosctl(f) && strings.Contains(f.Name(), "Acyc1") && f.Parent() == nil && f.Signature.Results().Len() == 1 && len(f.Params) == 1 {
+			tests = append(tests, f)
+		}
+	}
+	if len(tests) == 0 {
+		r.undecided("acyclicity-test", "-", "the acyclicity test of phase 1", "not found")
+		return
+	}
+	for _, t := range tests {
+		ctl := m.FuncIsPosctl(t)
+		key := "complete:" + funcKey(t)
+		loops := naturalLoops(t)
+		var bad []string
+		nFalse := 0
+		// the node list of the graph parameter
+		isNodes := func(v ssa.Value) bool {
+			u, ok := v.(*ssa.UnOp)
+			if !ok || u.Op != token.MUL {
+				return false
+			}
+			fa, ok := u.X.(*ssa.FieldAddr)
+			if !ok {
+				return false
+			}
+			base, steps := fieldChain(fa)
+			if locOfSteps(steps) != igDG+".Nodes" {
+				return false
+			}
+			_, isParam := base.(*ssa.Parameter)
+			return isParam
+		}
+		eachInstr(t, func(in ssa.Instruction) {
+			ret, ok := in.(*ssa.Return)
+			if !ok || len(ret.Results) != 1 {
+				return
+			}
+			c, isC := ret.Results[0].(*ssa.Const)
+			if !isC || !isConstBool(c, false) {
+				return
+			}
+			nFalse++
+			b := ret.Block()
+			if len(b.Preds) != 1 {
+				bad = append(bad, "\"no cycle\" is reported from several places")
+				return
+			}
+			var l *loopInfo
+			for _, x := range loops {
+				if x.Head == b.Preds[0] {
+					l = x
+				}
+			}
+			if l == nil {
+				bad = append(bad, "\"no cycle\" is not reported at the end of a scan loop (at "+m.Pos(ret.Pos())+")")
+				return
+			}
+			// the scanned slice: the len() operand of the header test
+			var scanned ssa.Value
+			if iff, ok := l.Head.Instrs[len(l.Head.Instrs)-1].(*ssa.If); ok {
+				if bo, ok := iff.Cond.(*ssa.BinOp); ok {
+					if call, ok := bo.Y.(*ssa.Call); ok && len(call.Call.Args) == 1 {
+						scanned = call.Call.Args[0]
+					}
+				}
+			}
+			if scanned == nil || !isNodes(scanned) {
+				bad = append(bad, "the scan that precedes \"no cycle\" does not run over the graph's node list (searches are started from "+fmt.Sprint(scanned)+")")
+				return
+			}
+			idx, okScan, why := fullScanLoop(l, scanned)
+			if !okScan {
+				bad = append(bad, "\"no cycle\" is reported after an incomplete scan of the node list: "+why)
+				return
+			}
+			for bb := range l.Body {
+				for _, s := range bb.Succs {
+					if !l.Body[s] && bb != l.Head {
+						if rt, isRet := s.Instrs[len(s.Instrs)-1].(*ssa.Return); !isRet || len(rt.Results) != 1 || !isConstBoolValue(rt.Results[0], true) {
+							bad = append(bad, "the scan can be left early at "+m.Pos(bb.Instrs[len(bb.Instrs)-1].Pos())+" without reporting a cycle")
+						}
+					}
+				}
+			}
+			// the search on the scanned node is guarded by nothing but membership tests of that node
+			nSearch := 0
+			for bb := range l.Body {
+				for _, bi := range bb.Instrs {
+					call, ok := bi.(*ssa.Call)
+					if !ok || call.Call.StaticCallee() == nil || !inModule(call.Call.StaticCallee()) || len(call.Call.Args) == 0 {
+						continue
+					}
+					// argument: element of the scanned list at the loop index
+					u, ok := call.Call.Args[0].(*ssa.UnOp)
+					if !ok || u.Op != token.MUL {
+						continue
+					}
+					ia, ok := u.X.(*ssa.IndexAddr)
+					if !ok || ia.X != scanned {
+						continue
+					}
+					_ = idx
+					nSearch++
+					for _, d := range iterationControlDeps(bb, loops) {
+						if _, k, isTest := membershipTest(d.If.Cond); isTest && k == ssa.Value(u) {
+							continue
+						}
+						bad = append(bad, "the search from a node is skipped under "+d.If.Cond.String()+" at "+m.Pos(d.If.Cond.Pos()))
+					}
+				}
+			}
+			if nSearch == 0 {
+				bad = append(bad, "no search is started from the scanned node")
+			}
+		})
+		if nFalse == 0 {
+			bad = append(bad, "the test never reports \"no cycle\" with a constant")
+		}
+		if len(bad) == 0 {
+			r.add(Obligation{Key: key, Pos: m.Pos(t.Pos()), Desc: "\"no cycle\" is reported only after a search was started from every not yet visited node of the graph", Verdict: "holds", Control: ctl})
+		} else {
+			r.add(Obligation{Key: key, Pos: m.Pos(t.Pos()), Desc: "the acyclicity test must start a search from every node before it reports \"no cycle\"", Verdict: "violation",
+				Detail: strings.Join(uniq(bad), "; ") + ": a cycle that the searches do not reach is missed, cycle breaking is skipped, and layering/positioning recurse on the cycle", Control: ctl})
+		}
+	}
+}
+
+func isConstBoolValue(v ssa.Value, want bool) bool {
+	c, ok := v.(*ssa.Const)
+	return ok && isConstBool(c, want)
+}
